@@ -98,6 +98,14 @@ def run(tier):
                          "exp_stats": e["exp_stats"], "history": e.get("history")},
                  replay={"plan": {"keys": plan["keys"], "states": ([{"state": {}, "runs": []}]), "histories":
                                   [e["history"]] if e.get("history") else [], "prefix_step": 10 ** 9}})
+    if tier == "thorough":
+        def corrupt(e):
+            if e["returned"]:
+                e["returned"][0] = e["returned"][0].replace("true", "false", 1) if "true" in e["returned"][0] else e["returned"][0] + " "
+                e["kind"] = "state"
+                return e
+            return None
+        common.binding_selftest(rep, "Cache_Trace", log, corrupt, expect_clause="RowsTransparent")
     kinds = {}
     for e in events.values():
         kinds[e["kind"]] = kinds.get(e["kind"], 0) + 1
